@@ -62,6 +62,24 @@ def split_steps(line):
     return [x.strip() for x in line.split(";") if x.strip()]
 
 
+def opname(line):
+    """base name of the (first) op of a line: `pca@3 ...` -> pca"""
+    t = line.split()
+    return t[0].split("@")[0] if t else ""
+
+
+def gen_scaled(r, ctx, line):
+    """value class: the integer table stands for dyadic fractions (`op@s`: every data value times 2^-s); everything stays
+    exactly representable and the model computes with the same rationals.  Only moderate s: together with the unscaled
+    constants (bias column of ones, regularisation) large |s| gives condition numbers whose rounding error exceeds the
+    comparison tolerances (seen with s = -6 and lambda = 2^-10 on rank-deficient data)"""
+    s = r.choice([0, 0, 0, 0, 1, 2, 3, 5])
+    ctx.hist("value_scale_log2", -s)
+    if s == 0: return line
+    t = line.split(" ", 1)
+    return f"{t[0]}@{s} {t[1]}"
+
+
 # --------------------------------------------------------------------------- generators
 def compositions(n):
     """all ordered partitions of n into positive parts"""
@@ -220,6 +238,14 @@ def retable(new, old):
     except Exception:
         return new
     rows = [list(x) for x in ro]
+    full, hn[0], ho[0] = hn[0], hn[0].split("@")[0], ho[0].split("@")[0]
+    try:
+        return _retable(hn, ho, no, do, en, eo, so, rows, full)
+    except Exception:
+        return new
+
+
+def _retable(hn, ho, no, do, en, eo, so, rows, full):
     if hn[0] == "linreg" and ho[0] == "linreg":
         hn = hn[:3] + [ho[3]]
     elif hn[0] == "lda" and ho[0] == "wlda":
@@ -227,14 +253,14 @@ def retable(new, old):
     elif hn[0] == "wlda" and ho[0] == "lda":
         rows = [x + [1 + (i * 7) % 3] for i, x in enumerate(rows)]
     elif en != eo:
-        return new
+        raise ValueError("incompatible columns")
     if hn[0] in ("pca", "pcat", "pcac"):
         alg, m = int(hn[2]), int(hn[3])
         avail = no if (alg == 2 or (alg == 0 and do > no)) else do
         hn = hn[:3] + [str(min(m, avail))]
     if hn[0] == "fisher":
         hn = hn[:2] + [str(min(int(hn[2]), do))]
-    return build_op(hn, do, so, rows)
+    return build_op([full] + hn[1:], do, so, rows)
 
 
 def gen_history(r, ctx, fam):
@@ -243,7 +269,7 @@ def gen_history(r, ctx, fam):
     k = r.choice([2, 2, 2, 3, 3, 4])
     steps = []
     for i in range(k):
-        s = gen_case(r, ctx, r.choice(FAMILIES[fam]), hist=True)
+        s = gen_scaled(r, ctx, gen_case(r, ctx, r.choice(FAMILIES[fam]), hist=True))
         kind = "new-data"
         if steps:
             x = r.below(8)
@@ -302,7 +328,7 @@ def run_lines(ctx, exes, drv, lines, timeout=900):
     env.setdefault("UBSAN_OPTIONS", "print_stacktrace=1"); env.update(ENV)
     groups = {}
     for i, l in enumerate(lines):
-        op = l.split()[0] if l.split() else ""
+        op = opname(l)
         groups.setdefault("a" if op in HARNESS_A_OPS else "c" if op == "fisher" else "b", []).append(i)   # histories stay within one family
     for g, idx in groups.items():
         exe = exes[g]
@@ -347,7 +373,7 @@ def run_until_clean(ctx, exes, drv, lines):
 def parse_op(line):
     """-> (head tokens, n, d, extra, sizes, rows) of an op line"""
     t = line.split()
-    op = t[0]
+    op = t[0].split("@")[0]
     nhead = {"meanvar": 1, "unitint": 1, "unitvar": 2, "linreg": 4, "whiten": 3, "zca": 3, "pca": 4, "pcat": 4, "pcac": 4,
              "lda": 3, "wlda": 3, "fisher": 3}[op]
     head = t[:nhead]
@@ -357,6 +383,7 @@ def parse_op(line):
     vals = [int(x) for x in t[nhead + 3 + nb:]]
     w = d + extra
     rows = [vals[i * w:(i + 1) * w] for i in range(n)]
+    if len(vals) != n * w or len(sizes) != nb: raise ValueError("malformed op " + line[:60])
     return head, n, d, extra, sizes, rows
 
 
@@ -407,16 +434,17 @@ def shrink_step(ctx, exes, drv, before, line, after, same, budget=120):
         changed = False
         head, n, d, extra, sizes, rows = parse_op(cur)
         cands = []
+        if "@" in head[0]: cands.append(build_op([head[0].split("@")[0]] + head[1:], d, sizes, rows))
         if len(sizes) > 1: cands.append(build_op(head, d, [n], rows))
         for i in range(n):
             if n > 1:
                 rr = rows[:i] + rows[i + 1:]
                 cands.append(build_op(head, d, [n - 1], rr))
-        if head[0] not in ("lda", "wlda", "fisher"):
+        if opname(cur) not in ("lda", "wlda", "fisher"):
             for j in range(d):
                 if d > 1:
                     cands.append(build_op(head, d - 1, sizes, [r[:j] + r[j + 1:] for r in rows]))
-        if head[0] in ("pca", "pcat", "pcac") and head[3] != "0":
+        if opname(cur) in ("pca", "pcat", "pcac") and head[3] != "0":
             cands = [retable(c, c) for c in cands]                  # keep the number of components admissible
         for i in range(n):
             for j in range(len(rows[i])):
@@ -440,13 +468,13 @@ def classify(r):
             key, what, found = classify(st)
             reuse = sorted({t for t in st.oracle if t.startswith("reuse-")})
             if reuse:
-                op = st.op.split()[0]
+                op = opname(st.op)
                 return (f"reuse:{op}:{'+'.join(reuse)}",
                         f"step {i + 1} of the history `{r.op}` ({op} on objects that were used before) does not give what freshly "
                         f"constructed objects give ({reuse}); other oracle tags {sorted(set(st.oracle) - set(reuse))}; model says: {st.model[:300]}", True)
             return key, what + f" [step {i + 1} of the history `{r.op}`]", found
         return "mismatch:history:protocol", f"history `{r.op}`: {r.model[:300]}", False
-    op = r.op.split()[0]
+    op = opname(r.op)
     if op == "fisher" and r.crash and r.op.split()[2] == "0":
         return ("F-C15-8:fisherlda-default-dimension",
                 f"FisherLDA with the default subspace dimension (= number of classes) > input dimension reads past the eigenvector matrix: `{r.op}`", True)
@@ -493,7 +521,7 @@ def correspond(ctx, name, exes, drv, lines, max_report=8):
             ctx.count("values_compared_exactly", int(m.group(1)))
             ctx.count("values_compared_with_tolerance", int(m.group(2)))
             ctx.count("specification_checks_on_returned_doubles", int(m.group(3)))
-            op = r.op.split()[0]
+            op = opname(r.op)
             for tg in filter(None, m.group(4).split(",")):
                 ctx.hist("model_tags", f"{op}:{tg}")
             ctx.hist("fe_inexact", f"{op}:{'exact' if ' I=0' in r.impl else 'inexact' if ' I=1' in r.impl else 'exception'}")
@@ -573,7 +601,7 @@ def run(ctx):
     per = 400 if ctx.quick else 4000
     lines = list(corpus)
     for op in ("meanvar", "unitvar", "unitint", "linreg", "whiten", "zca", "pca", "lda", "wlda", "fisher"):
-        lines += [gen_case(r, ctx, op) for _ in range(per)]
+        lines += [gen_scaled(r, ctx, gen_case(r, ctx, op)) for _ in range(per)]
         for _ in range(3 if ctx.quick else 30):
             allp = gen_all_partitions(r, ctx, op)
             ctx.count("all_partition_families", 1)
@@ -585,7 +613,7 @@ def run(ctx):
         lines += hs
     for l in lines:
         for st in split_steps(l):
-            ctx.hist("op_mix", st.split()[0])
+            ctx.hist("op_mix", opname(st))
             try:
                 ctx.hist("batches", len(parse_op(st)[4]))
             except Exception:
